@@ -454,7 +454,11 @@ func genMMF(fl *hx.Flags, emit func(Case)) {
 		for k := 10; k < len(ops); k += 17 {
 			ops[k] = Op{K: "R"}
 		}
-		emit(Case{Kind: "seq", Bs: bs, Size: size, Fit: fit, Init: in, Backend: "mmf", Ops: ops, Every: everyFor(segs*8*bs, n), Note: "mmf"})
+		var grown int64
+		if size > 4096 && r.Chance(1, 2) {
+			grown = 4096 * int64(r.Range(1, int(min64(size/4096-1, 8))))
+		}
+		emit(Case{Kind: "seq", Bs: bs, Size: size, Fit: fit, Init: in, Backend: "mmf", Ops: ops, Every: everyFor(segs*8*bs, n), Note: "mmf", Grown: grown})
 	}
 }
 
